@@ -39,6 +39,22 @@ pub fn tokens_to_line(tokens: &Tokens) -> String {
     result
 }
 
+/// Trims white space around one command of a list, but keeps a trailing
+/// white-space character that is escaped by a backslash (`ls a\ `).
+fn trim_cmd(token: &str) -> String {
+    let t = token.trim_start();
+    let trimmed = t.trim_end();
+    if trimmed.len() < t.len() {
+        let n_bs = trimmed.chars().rev().take_while(|c| *c == '\\').count();
+        if n_bs % 2 == 1 {
+            if let Some(c) = t[trimmed.len()..].chars().next() {
+                return format!("{}{}", trimmed, c);
+            }
+        }
+    }
+    trimmed.to_string()
+}
+
 /// Parse command line for multiple commands. Examples:
 /// >>> line_to_cmds("echo foo && echo bar; echo end");
 /// vec!["echo foo", "&&", "echo bar", ";", "echo end"]
@@ -113,7 +129,7 @@ pub fn line_to_cmds(line: &str) -> Vec<String> {
                 sep.push(c);
                 continue;
             } else if c.to_string() == sep {
-                let _token = token.trim().to_string();
+                let _token = trim_cmd(&token);
                 if !_token.is_empty() {
                     result.push(_token);
                 }
@@ -128,7 +144,7 @@ pub fn line_to_cmds(line: &str) -> Vec<String> {
         }
         if c == ';' {
             if sep.is_empty() {
-                let _token = token.trim().to_string();
+                let _token = trim_cmd(&token);
                 if !_token.is_empty() {
                     result.push(_token);
                 }
@@ -142,7 +158,7 @@ pub fn line_to_cmds(line: &str) -> Vec<String> {
         }
         token.push(c);
     }
-    let _token = token.trim().to_string();
+    let _token = trim_cmd(&token);
     if !_token.is_empty() {
         result.push(_token);
     }
